@@ -62,6 +62,35 @@ fn main() {
         }
         return;
     }
+    if args.len() >= 2 && args[1] == "c17-corpus" {
+        // authoring aid: fault-free module graphs without dynamic import (half of them forced to have
+        // top-level await somewhere), one JSON line each: {mods, entry, second_entry, sources}
+        let seed: u64 = args.get(2).and_then(|s| s.parse().ok()).unwrap_or(20_260_922);
+        let n: usize = args.get(3).and_then(|s| s.parse().ok()).unwrap_or(100);
+        for run in 0..n as u64 {
+            let mut rng = boa_sim::rng::Rng::derive(seed, "C17-corpus", run);
+            let v = boa_sim::props::c17::generate(&mut rng, if run % 3 == 0 { Tier::Thorough } else { Tier::Quick });
+            let mut sc: boa_sim::props::c17::Scenario = serde_json::from_value(v).expect("scenario");
+            if sc.expected.is_some() {
+                continue;
+            }
+            sc.faults.clear();
+            sc.fault_times.clear();
+            for m in &mut sc.mods {
+                m.dynamic = None;
+            }
+            if run % 2 == 0 && sc.mods.iter().all(|m| m.awaits == 0) {
+                let k = rng.range(1, 2);
+                for _ in 0..k {
+                    let i = rng.idx(sc.mods.len());
+                    sc.mods[i].awaits = rng.range(1, 3) as u8;
+                }
+            }
+            let sources: Vec<String> = sc.mods.iter().enumerate().map(|(i, m)| boa_sim::props::c17::render(i, m)).collect();
+            println!("{}", serde_json::json!({"mods": sc.mods, "entry": sc.entry, "second_entry": sc.second_entry, "sources": sources}));
+        }
+        return;
+    }
     if args.len() >= 2 && args[1] == "c09-miri-sample" {
         // resurrection-free C09 histories of the thorough generator, one per line
         let seed: u64 = args.get(2).and_then(|s| s.parse().ok()).unwrap_or(20_260_922);
